@@ -138,6 +138,7 @@ impl Leaf {
         match self.kind {
             'B' => format!("B {} {}", id, self.family),
             'C' => format!("C {}", id),
+            'X' => format!("X {}", id),
             _ => format!("T {}", id),
         }
     }
@@ -184,6 +185,16 @@ impl Ctx {
             "clv := \\...ps -> [\"clv\", ps]",
             "clinc := \\p -> p + 1",
             "cllt := \\p, q -> p < q",
+            // callables of the remaining `Func` variants (opaque in the model; their forms must still agree)
+            "struct Pt (px, py)",
+            "mcl2 := memoize(cl2)",
+            "ixs := _[1]",
+            "ixu := _[_]",
+            "sls := _[1:]",
+            "upd := _{0 = 9}",
+            "par2 := cl1 *** cl1",
+            "fan2 := cl1 &&& cl1",
+            "lft := lift(1, cl2)",
         ] {
             match ctx.eval_in(&ctx.top, src) {
                 Out::Ok(_) => {}
@@ -361,7 +372,7 @@ enum FTerm {
     B(usize),
     C(usize),
     T(usize),
-    X,
+    X(usize),
     P1(Box<FTerm>, Term),
     P2(Box<FTerm>, Term),
     PL(Box<FTerm>, Term),
@@ -486,10 +497,7 @@ impl<'a> P<'a> {
             "B" => FTerm::B(self.num()),
             "C" => FTerm::C(self.num()),
             "T" => FTerm::T(self.num()),
-            "X" => {
-                self.num();
-                FTerm::X
-            }
+            "X" => FTerm::X(self.num()),
             "P1" | "P2" | "PL" => {
                 let f = self.fterm()?;
                 self.eat(b',');
@@ -597,7 +605,7 @@ impl<'a> Binding<'a> {
             Term::List(ts) => Ok(Obj::list(ts.iter().map(|t| self.val(t)).collect::<Result<Vec<_>, _>>()?)),
             Term::Fun(f) => match &**f {
                 // a leaf used as a value keeps the precedence it has in the environment
-                FTerm::B(id) | FTerm::C(id) | FTerm::T(id) => self.leaf_obj(*id),
+                FTerm::B(id) | FTerm::C(id) | FTerm::T(id) | FTerm::X(id) => self.leaf_obj(*id),
                 f => Ok(Obj::Func(self.func(f)?, Precedence::zero())),
             },
             Term::Opq(label, ts) => {
@@ -648,8 +656,7 @@ impl<'a> Binding<'a> {
     }
     fn func(&self, f: &FTerm) -> Result<Func, Fail> {
         Ok(match f {
-            FTerm::B(id) | FTerm::C(id) | FTerm::T(id) => self.leaf_func(*id)?.0,
-            FTerm::X => return Err(Fail::Unresolvable),
+            FTerm::B(id) | FTerm::C(id) | FTerm::T(id) | FTerm::X(id) => self.leaf_func(*id)?.0,
             FTerm::P1(f, x) => Func::PartialApp1(Box::new(self.func(f)?), Box::new(self.val(x)?)),
             FTerm::P2(f, x) => Func::PartialApp2(Box::new(self.func(f)?), Box::new(self.val(x)?)),
             FTerm::PL(f, x) => Func::PartialAppLast(Box::new(self.func(f)?), Box::new(self.val(x)?)),
@@ -665,7 +672,7 @@ impl<'a> Binding<'a> {
                     None => return Err(Fail::Unresolvable),
                 };
                 let prec = match &**op {
-                    FTerm::B(id) | FTerm::C(id) | FTerm::T(id) => self.leaf_func(*id)?.1,
+                    FTerm::B(id) | FTerm::C(id) | FTerm::T(id) | FTerm::X(id) => self.leaf_func(*id)?.1,
                     _ => Precedence::zero(),
                 };
                 let seed = match s {
@@ -797,6 +804,7 @@ fn leaves_of(ctx: &Ctx, table: &Table, rep: &mut Report) -> Vec<Leaf> {
             Obj::Func(Func::Closure(_), _) => {
                 out.push(Leaf { name: n, kind: 'C', family: "Closure".into(), obj })
             }
+            Obj::Func(..) => out.push(Leaf { name: n, kind: 'X', family: "Other".into(), obj }),
             _ => {}
         }
     }
@@ -809,7 +817,7 @@ fn leaves_of(ctx: &Ctx, table: &Table, rep: &mut Report) -> Vec<Leaf> {
     out
 }
 
-fn composites(ctx: &Ctx, leaves: &[Leaf], pool: &[PoolVal], driver: &str, rep: &mut Report) -> Vec<Callable> {
+fn composites(ctx: &Ctx, leaves: &[Leaf], pool: &[PoolVal], driver: &str, rep: &mut Report, seed: u64, nrandom: usize) -> Vec<Callable> {
     let get = |n: &str| leaves.iter().find(|l| l.name == n).cloned().unwrap_or_else(|| panic!("leaf {}", n));
     let pv = |s: &str| pool.iter().find(|p| p.src == s).cloned().unwrap_or_else(|| panic!("pool {}", s));
     // (source over g, h [leaves 0, 1] and v [captured $3], shape label, leaves, captured, driver tokens)
@@ -869,6 +877,108 @@ fn composites(ctx: &Ctx, leaves: &[Leaf], pool: &[PoolVal], driver: &str, rep: &
         format!("COMP P1 {} {} {}", l(0, &minus), three.token(3), l(1, &cl2))));
     specs.push(("(g(v) <<< h)".into(), "(+(3) <<< spy)".into(), vec![plus.clone(), spy.clone()], vec![three.clone()],
         format!("COMP P2 {} {} {}", l(0, &plus), three.token(3), l(1, &spy))));
+    // random nestings of the combinators (seeded): every sub-expression is bound to a name, the
+    // model term is built alongside; callables that receive results of opaque bodies (the outer
+    // function of a composition) are built from probe builtins and closures only, because the
+    // model cannot know the kind of such a result
+    let mut rng = Rng::new(seed ^ 0xC04C04);
+    let any_leaves: Vec<Leaf> = ["spy", "spyb", "cl1", "cl2", "cl3", "clv", "+", "-", "<", "append", "max", "zip", "til", "len", "in", "=="]
+        .iter().map(|n| get(n)).collect();
+    let plain_leaves: Vec<Leaf> = ["spy", "spyb", "spyc", "cl1", "cl2", "cl3", "clv"].iter().map(|n| get(n)).collect();
+    let caps: Vec<PoolVal> = ["3", "\"ab\"", "[1,2,3]", "null", "(1/2)"].iter().map(|s| pv(s)).collect();
+    struct G<'a> {
+        rng: &'a mut Rng,
+        decls: Vec<String>,
+        lvs: Vec<Leaf>,
+        cap: Vec<PoolVal>,
+        any: &'a [Leaf],
+        plain: &'a [Leaf],
+        caps: &'a [PoolVal],
+    }
+    impl<'a> G<'a> {
+        fn leaf(&mut self, plain: bool) -> (String, String, String) {
+            let l = if plain { self.rng.pick(self.plain).clone() } else { self.rng.pick(self.any).clone() };
+            let id = match self.lvs.iter().position(|x| x.name == l.name) {
+                Some(i) => i,
+                None => {
+                    self.lvs.push(l.clone());
+                    self.lvs.len() - 1
+                }
+            };
+            (l.name.clone(), l.tokens(id), l.name.clone())
+        }
+        fn capture(&mut self) -> (String, String) {
+            let v = self.rng.pick(self.caps).clone();
+            let tok = v.token(3 + self.cap.len());
+            let name = format!("v{}", self.cap.len());
+            self.decls.push(format!("{} := {}", name, v.src));
+            self.cap.push(v);
+            (name, tok)
+        }
+        /// returns (identifier, model tokens, shape)
+        fn expr(&mut self, depth: u32, plain: bool) -> (String, String, String) {
+            if depth == 0 || self.rng.chance(1, 4) {
+                return self.leaf(plain);
+            }
+            let (src, tok, shape) = match self.rng.below(if self.cap.len() < 2 { 9 } else { 4 }) {
+                0 => {
+                    let (x, t, s) = self.expr(depth - 1, plain);
+                    (format!("flip({})", x), format!("FLIP {}", t), format!("flip({})", s))
+                }
+                1 => {
+                    let (x, tx, sx) = self.expr(depth - 1, true);
+                    let (y, ty, sy) = self.expr(depth - 1, plain);
+                    (format!("({} <<< {})", x, y), format!("COMP {} {}", tx, ty), format!("({} <<< {})", sx, sy))
+                }
+                2 => {
+                    let (x, tx, sx) = self.expr(depth - 1, true);
+                    let (y, ty, sy) = self.expr(depth - 1, plain);
+                    (format!("({} >>> {})", y, x), format!("COMP {} {}", tx, ty), format!("({} >>> {})", sy, sx))
+                }
+                3 => {
+                    let (x, tx, sx) = self.expr(depth - 1, true);
+                    let (y, ty, sy) = self.expr(depth - 1, plain);
+                    (format!("({} on {})", x, y), format!("ON {} {}", tx, ty), format!("({} on {})", sx, sy))
+                }
+                4 => {
+                    let (x, t, s) = self.expr(depth - 1, plain);
+                    let (v, tv) = self.capture();
+                    (format!("{}(_, {})", x, v), format!("CS F {} 2 H {}", t, tv), format!("{}(_, v)", s))
+                }
+                5 => {
+                    let (x, t, s) = self.expr(depth - 1, plain);
+                    let (v, tv) = self.capture();
+                    (format!("{}({}, _)", x, v), format!("CS F {} 2 {} H", t, tv), format!("{}(v, _)", s))
+                }
+                6 => {
+                    let (x, t, s) = self.expr(depth - 1, plain);
+                    let (v, tv) = self.capture();
+                    (format!("({} {} _)", v, x), format!("CH {} {} N", tv, t), format!("(v {} _)", s))
+                }
+                7 => {
+                    let (x, t, s) = self.expr(depth - 1, plain);
+                    let (v, tv) = self.capture();
+                    (format!("(_ {} {})", x, v), format!("CH N {} {}", t, tv), format!("(_ {} v)", s))
+                }
+                _ => {
+                    let (x, t, s) = self.expr(depth - 1, plain);
+                    (format!("{}(_, _)", x), format!("CS F {} 2 H H", t), format!("{}(_, _)", s))
+                }
+            };
+            let name = format!("t{}", self.decls.len());
+            self.decls.push(format!("{} := {}", name, src));
+            (name, tok, shape)
+        }
+    }
+    for _ in 0..nrandom {
+        let mut g = G { rng: &mut rng, decls: vec![], lvs: vec![], cap: vec![], any: &any_leaves, plain: &plain_leaves, caps: &caps };
+        let (name, tokens, shape) = g.expr(3, false);
+        if g.decls.is_empty() {
+            continue; // a bare leaf: already swept
+        }
+        let src = format!("{}; {}", g.decls.join("; "), name);
+        specs.push((format!("rnd:{}", shape), src, g.lvs.clone(), g.cap.clone(), tokens));
+    }
     let mut seen = HashSet::new();
     let mut out = vec![];
     for (shape, src, lvs, cap, tokens) in specs {
@@ -880,7 +990,11 @@ fn composites(ctx: &Ctx, leaves: &[Leaf], pool: &[PoolVal], driver: &str, rep: &
         let obj = match real {
             Out::Ok(o @ Obj::Func(..)) => o,
             o => {
-                rep.judge(&format!("composite:{}", shape), &src, &detail(&o), "a function", "a function");
+                if shape.starts_with("rnd:") {
+                    rep.arm("random composite does not evaluate to a function (skipped)");
+                } else {
+                    rep.judge(&format!("composite:{}", shape), &src, &detail(&o), "a function", "a function");
+                }
                 continue;
             }
         };
@@ -944,13 +1058,13 @@ fn tk_func(t: &[&str], i: &mut usize) -> Option<FTerm> {
             *i += 2;
             FTerm::B(id)
         }
-        "C" | "T" => {
+        "C" | "T" | "X" => {
             let id = t.get(*i)?.parse().ok()?;
             *i += 1;
-            if h == "C" {
-                FTerm::C(id)
-            } else {
-                FTerm::T(id)
+            match h {
+                "C" => FTerm::C(id),
+                "X" => FTerm::X(id),
+                _ => FTerm::T(id),
             }
         }
         "P1" | "P2" | "PL" => {
@@ -1096,7 +1210,12 @@ fn run_tuple(
         let rust = if unordered { sort_top(&class(&out)) } else { class(&out) };
         let entries: Vec<&'static str> = SPYLOG.with(|l| l.borrow().clone());
         let req = request_for(c, form, args);
-        let input = format!("{}   [{}]\nrequest: {}", describe(form), src, req);
+        let input = format!(
+            "{}   [{}]\nrequest: {}\ncallable: {} ;; {} ;; {}",
+            describe(form), src, req, c.tokens,
+            c.leaves.iter().map(|l| hex(l.name.as_bytes())).collect::<Vec<_>>().join(" "),
+            c.captured.iter().map(|v| hex(v.src.as_bytes())).collect::<Vec<_>>().join(" ")
+        );
         rep.case(&input, nontrivial);
         rep.outcome(if rust.starts_with("ok fn:") {
             "function"
@@ -1149,6 +1268,14 @@ fn run_tuple(
             match b.resolve(&impl_raw) {
                 Some(s) if unordered => sort_top(&s),
                 // where the real code panics inside an opaque body the model only knows "fails"
+                // a random composite can drop the result of an intermediate call (a section given
+                // too many arguments ignores the rest); when that call fails on the real interpreter
+                // the model, which only sees the final term, cannot know — the form and the plain
+                // call still have to agree
+                Some(s) if c.label.starts_with("rnd:") && s.starts_with("ok") && !rust.starts_with("ok") && rust == spec => {
+                    rep.arm("random composite: an intermediate call fails on the real interpreter (model prediction skipped)");
+                    rust.clone()
+                }
                 Some(s) if rust == "panic" && s == "throw" => {
                     rep.arm("real code panics inside a body (C14's subject; forms still compared)");
                     rust.clone()
@@ -1249,17 +1376,15 @@ fn shard_main(args: &Args, shard: usize, nshards: usize, progress: &str) {
     let leaves = leaves_of(&ctx, &table, &mut Report::new("C04", args));
     let thorough = args.tier == "thorough";
     let mut callables: Vec<Callable> = leaves.iter().filter(|l| !excluded(&l.name)).map(leaf_callable).collect();
+    let nrandom = if thorough { 400 } else { 60 };
     if shard == 0 {
-        // composites (and the table cross-check) live in shard 0
+        // the table cross-check and the checks of the composite constructions are reported once
         let _ = leaves_of(&ctx, &table, &mut rep);
-        callables.extend(composites(&ctx, &leaves, &pool, &args.driver, &mut rep));
+        callables.extend(composites(&ctx, &leaves, &pool, &args.driver, &mut rep, args.seed, nrandom));
+    } else {
+        callables.extend(composites(&ctx, &leaves, &pool, &args.driver, &mut Report::new("C04", args), args.seed, nrandom));
     }
-    let mine: Vec<Callable> = callables
-        .into_iter()
-        .enumerate()
-        .filter(|(i, c)| if c.is_leaf { i % nshards == shard } else { true })
-        .map(|(_, c)| c)
-        .collect();
+    let mine: Vec<Callable> = callables.into_iter().enumerate().filter(|(i, _)| i % nshards == shard).map(|(_, c)| c).collect();
     // arity-3 pool: small
     let small: Vec<&PoolVal> = pool
         .iter()
@@ -1403,6 +1528,32 @@ fn merge(rep: &mut Report, path: &str, shard: usize) -> bool {
     true
 }
 
+/// a composite that this run's generator did not produce: rebuild it from the `callable:` line
+/// that follows the input line in the replay file (model tokens ;; leaf names ;; captured values)
+fn rebuild_callable(ctx: &Ctx, leaves: &[Leaf], pool: &[PoolVal], fsrc: &str, text: &str, input_line: &str) -> Option<Callable> {
+    let mut after = text.lines().skip_while(|l| *l != input_line).skip(1);
+    let cl = after.find(|l| l.starts_with("callable: "))?.strip_prefix("callable: ")?;
+    let parts: Vec<&str> = cl.split(" ;; ").collect();
+    if parts.len() < 3 {
+        return None;
+    }
+    let unhex_s = |h: &str| String::from_utf8_lossy(&unhex(h)).to_string();
+    let lvs: Vec<Leaf> = parts[1].split(' ').filter(|x| !x.is_empty()).filter_map(|h| leaves.iter().find(|l| l.name == unhex_s(h)).cloned()).collect();
+    let cap: Vec<PoolVal> = parts[2].split(' ').filter(|x| !x.is_empty()).filter_map(|h| pool.iter().find(|v| v.src == unhex_s(h)).cloned()).collect();
+    match ctx.eval_with(&[], fsrc) {
+        Out::Ok(obj @ Obj::Func(..)) => Some(Callable {
+            src: fsrc.to_string(),
+            label: "replayed".into(),
+            tokens: parts[0].to_string(),
+            leaves: lvs,
+            captured: cap,
+            obj,
+            is_leaf: false,
+        }),
+        _ => None,
+    }
+}
+
 fn replay(args: &Args, path: &str) {
     install_quiet_panic_hook();
     let ctx = Ctx::new();
@@ -1410,7 +1561,7 @@ fn replay(args: &Args, path: &str) {
     let (table, _) = load_table(&args.driver);
     let pool = pool(&ctx, "thorough");
     let leaves = leaves_of(&ctx, &table, &mut rep);
-    let comps = composites(&ctx, &leaves, &pool, &args.driver, &mut rep);
+    let comps = composites(&ctx, &leaves, &pool, &args.driver, &mut rep, args.seed, if args.tier == "thorough" { 400 } else { 60 });
     let text = std::fs::read_to_string(path).expect("replay file");
     for line in text.lines() {
         let rest = match line.strip_prefix("input: ") {
@@ -1425,7 +1576,8 @@ fn replay(args: &Args, path: &str) {
         }
         let form = parts[0].trim();
         let fsrc = parts[1].trim().strip_prefix("f := ").unwrap_or("");
-        let c = match leaves.iter().find(|l| l.name == fsrc).map(leaf_callable).or_else(|| comps.iter().find(|c| c.src == fsrc).cloned()) {
+        let known = leaves.iter().find(|l| l.name == fsrc).map(leaf_callable).or_else(|| comps.iter().find(|c| c.src == fsrc).cloned());
+        let c = match known.or_else(|| rebuild_callable(&ctx, &leaves, &pool, fsrc, &text, line)) {
             Some(c) => c,
             None => {
                 println!("cannot replay: unknown callable {}", fsrc);
@@ -1467,13 +1619,16 @@ fn main() {
     }
     install_quiet_panic_hook();
     let mut rep = Report::new("C04", &args);
-    rep.rule = "every callable of the real global environment (all registered builtins except the I/O, clock, process, \
-                random and exit ones; all types; 3 probe builtins with separately written run/run1/run2; 6 user closures; \
-                ~70 composites: flip, <<<, >>>, on, PartialApp1/2/Last, call/chain/list sections, nested) x argument \
-                tuples from a pool of all value kinds (arity 1: whole pool, arity 2: all pairs, arity 3: small pool) x \
-                every surface form (call, bang, infix, backtick, underscore sections in every position, chain sections, \
-                apply, of, juxtaposition, right section, op-assign, splats, ., .>, then, <.); a case is non-trivial when \
-                the plain call succeeds; distinct = distinct (form, callable, arguments)"
+    rep.rule = "every callable of the real global environment (all registered builtins except the ones touching files, \
+                stdin, clock, processes, network or random state; all types; 3 probe builtins with separately written \
+                run/run1/run2; 6 user closures; a struct type with its field accessors; memoized / index / slice / update \
+                section / parallel / fanout / lifted values; ~70 fixed composites: flip, <<<, >>>, on, PartialApp1/2/Last, \
+                call/chain/list sections, nested; 60 (quick) or 400 (thorough) seeded random nestings of those combinators to \
+                depth 3) x argument tuples from a pool of all value kinds (15 values quick, 44 thorough; arity 1: whole pool, \
+                arity 2: all pairs, arity 3: 4 or 7 values) x every surface form (call, bang, infix, backtick, an underscore in \
+                every position, all underscores, chain sections, apply, of, juxtaposition, right section, op-assign, splats, \
+                ., .>, then, <.); a case is non-trivial when the plain call succeeds; distinct = distinct (form, callable, \
+                arguments)"
         .into();
     let thorough = args.tier == "thorough";
     let nshards: usize = if thorough { 14 } else { 8 };
